@@ -1,5 +1,6 @@
 import Tickit.Model.WinFlush
 import Tickit.Model.WinSpec
+import Tickit.Model.WinTextf
 import Tickit.Model.VT
 import Tickit.Driver.Common
 /-
@@ -13,6 +14,9 @@ import Tickit.Driver.Common
          flush are pairwise disjoint, and every cell the flush changed was written by the window that owns it in the
          composition (the writer is identified by the foreground tag `id + 1` every window draws with) and lies in
          the damaged region (the rectangles handed to the root).
+  Second configuration (scroll oracle `m`): the library's mock terminal; `resize` there is `tickit_mockterm_resize` (the
+  harness sets the default pen first), modelled by the same `termResize` (`Proof/WinMockResize.lean`: `mockResize_screen`).
+  Handler instruction `F` / `f`: `tickit_renderbuffer_textf_at` with format "%*s" (`Model/WinTextf.lean`).
   Third configuration (scroll oracle `x`): the terminal is the library's xterm driver writing to an output function.  The
   harness prints no grid but the bytes the terminal was sent during each operation; they are interpreted here by the VT
   reference interpreter of C09 (`Model/VT.lean`: glyph, background colour and reverse video of every cell) and the screen
@@ -111,6 +115,14 @@ def parseInstr (tok : String) : Option Instr :=
       if k = "Y" then some (.copy false a b c d e f) else if k = "M" then some (.copy true a b c d e f) else none
     | _ => none
   | [k, a, b, c, d] =>
+    if k = "F" ∨ k = "f" then
+      -- tickit_renderbuffer_textf_at(rb, l, c, "%*s", pad, bytes): put_text of the formatted bytes (Model/WinTextf.lean)
+      match ints? [a, b, c], hexBytes? d with
+      | some [l, cc, pad], some bytes =>
+        if bytes.isEmpty ∨ pad < 0 ∨ pad > 4096 ∨ bytes.any (· == 0) then none
+        else some (.text (k = "f") l cc (utf8Decode (putVtextf {} (formatPad pad.toNat (bytes.map (·.toNat)))).1))
+      | _, _ => none
+    else
     match ints? [a, b, c, d] with
     | some [a, b, c, d] =>
       if k = "E" then some (.erase false a b c d) else if k = "e" then some (.erase true a b c d)
@@ -868,7 +880,7 @@ def runOp (d : DSt) (ts : List String) : DSt × String :=
     | ["resize", lines, cols] =>
       match ints? [lines, cols] with
       | some [l, c] =>
-        if l < 1 ∨ c < 1 ∨ l > 64 ∨ c > 200 ∨ d.mode = 3 then (d, "bad-op") else
+        if l < 1 ∨ c < 1 ∨ l > 64 ∨ c > 200 then (d, "bad-op") else
         match termResize st l c with
         | .ub w => fail d w
         | .ok st => finishOk d st 0 none true
